@@ -11,7 +11,7 @@ import EupsModel.Model.TableParse
 
 Nothing here is executed by the driver; the definitions are used by the theorems of `Props/C11.lean` only. -/
 namespace EupsModel.C11Spec
-open EupsModel.Cond
+open EupsModel.Cond EupsModel.TableParse
 
 inductive Var | flavor | type
   deriving DecidableEq, Repr
@@ -118,5 +118,66 @@ def BExpr.wordsOK : BExpr → Bool
   | .atom _ _ w => plainWord w
   | .and a b => a.wordsOK && b.wordsOK
   | .or a b => a.wordsOK && b.wordsOK
+
+/-! ## tables
+
+A table is a list of items: single lines outside any block, and if / else-if / else chains.  A line is what the
+reader makes of it — an action, or nothing (a comment, a blank line, an unknown or unsupported command) — so that
+the block clause is stated for *arbitrary* lines between the lines of the block structure; how a command line
+becomes its action is the argument clause. -/
+
+/-- the lines of a block: `some a` a command line (with its action), `none` a line the reader skips -/
+abbrev Body := List (Option Action)
+
+def Body.acts (b : Body) : List Action := b.filterMap id
+
+structure Branch where
+  cond : CExpr
+  trail : Str                -- blanks between the condition and the closing parenthesis
+  body : Body
+  deriving Repr
+
+/-- the condition text between the parentheses of `if (…) {` -/
+def Branch.text (b : Branch) : Str := b.cond.str ++ b.trail
+def Branch.ok (b : Branch) : Bool := b.cond.okAt 0 && blank b.trail
+
+inductive TItem
+  | line (l : Option Action)                                                   -- a line outside any block
+  | chain (first : Branch) (elifs : List Branch) (els : Option Body) (lowerElse : Bool)
+      -- `lowerElse`: the keyword of `} else {` is written in lower case (immaterial after the repair of D4)
+  deriving Repr
+
+def TItem.ok : TItem → Bool
+  | .line _ => true
+  | .chain f es _ _ => f.ok && es.all Branch.ok
+
+/-- the first branch whose condition is true, else the else branch -/
+def denoteBranches (env : Env) : List Branch → List Action → List Action
+  | [], e => e
+  | b :: bs, e => if denote env b.cond.abs then b.body.acts else denoteBranches env bs e
+
+def denoteItem (env : Env) : TItem → List Action
+  | .line l => l.toList
+  | .chain f es els _ =>
+    denoteBranches env (f :: es) (match els with | some b => b.acts | none => [])
+
+/-- what a table denotes for a flavor and a list of setup types: unconditional commands always, one branch of
+every chain, in the order written -/
+def denoteTable (env : Env) (t : List TItem) : List Action := t.flatMap (denoteItem env)
+
+def Body.lines (b : Body) : List Line := b.map fun
+  | some a => .act a
+  | none => .skip
+
+/-- the classified lines of an item, as the reader meets them -/
+def TItem.lines : TItem → List Line
+  | .line l => Body.lines [l]
+  | .chain f es els lw =>
+    .blk (.ifOpen f.text) :: f.body.lines
+      ++ es.flatMap (fun b => .blk (.elseIf b.text) :: b.body.lines)
+      ++ (match els with | some b => .blk (.elseOpen lw) :: Body.lines b | none => [])
+      ++ [.blk .close]
+
+def tableLines (t : List TItem) : List Line := t.flatMap TItem.lines
 
 end EupsModel.C11Spec
